@@ -416,6 +416,111 @@ fn corpus() -> Vec<(Dag, Vec<Query>, &'static str)> {
     ]
 }
 
+/// Skewed histories in which a candidate that `paint_down_to_common` reports (`y`: newer than the
+/// real bases, a direct parent of both tips) is redundant, and its redundancy is visible ONLY through
+/// a 2nd-or-later parent of a merge below the real base(s), `depth` >= 1 plain commits further down
+/// (so `remove_redundant` has to WALK the non-first parents of merges, marking them is not enough).
+/// Shapes: plain, octopus (the path hangs off the 2nd/3rd/last parent), criss-cross (two real
+/// bases), stacked (two such merges on top of each other, one redundant candidate behind each).
+fn skew_family(depth: usize, pos: usize, sides_after: usize, above: usize, criss: bool, stacked: bool, tip_order: usize) -> (Dag, Vec<Query>) {
+    let mut parents: Vec<Vec<usize>> = vec![vec![]];
+    let mut time: Vec<i64> = vec![B];
+    let mut candidates: Vec<usize> = Vec::new();
+    let mut below = 0usize; // what the next level's side branches fork from
+    let levels = if stacked { 2 } else { 1 };
+    for level in 0..levels {
+        // the redundant candidate with a commit time far in the future of everything but the tips
+        let y = parents.len();
+        parents.push(vec![below]);
+        time.push(B + 100_000 + level as i64);
+        candidates.push(y);
+        let mut z = y;
+        for _ in 0..depth {
+            parents.push(vec![z]);
+            time.push(B + parents.len() as i64);
+            z = parents.len() - 1;
+        }
+        let mut ps = Vec::new();
+        for _ in 0..pos {
+            parents.push(vec![below]);
+            time.push(B + parents.len() as i64);
+            ps.push(parents.len() - 1);
+        }
+        ps.push(z);
+        for _ in 0..sides_after {
+            parents.push(vec![below]);
+            time.push(B + parents.len() as i64);
+            ps.push(parents.len() - 1);
+        }
+        parents.push(ps);
+        time.push(B + parents.len() as i64);
+        let mut top = parents.len() - 1;
+        for _ in 0..above {
+            parents.push(vec![top]);
+            time.push(B + parents.len() as i64);
+            top = parents.len() - 1;
+        }
+        below = top;
+    }
+    // the real base(s)
+    let merge_top = below;
+    let mut bases = vec![];
+    parents.push(vec![merge_top]);
+    time.push(B + parents.len() as i64);
+    bases.push(parents.len() - 1);
+    if criss {
+        parents.push(vec![merge_top]);
+        time.push(B + parents.len() as i64);
+        bases.push(parents.len() - 1);
+    }
+    let mut tip_parents: Vec<usize> = bases.clone();
+    tip_parents.extend(candidates.iter().copied());
+    let mut t1 = tip_parents.clone();
+    let mut t2 = tip_parents.clone();
+    match tip_order {
+        0 => {}
+        1 => t1.reverse(),
+        2 => t2.reverse(),
+        _ => {
+            t1.reverse();
+            t2.rotate_left(1);
+        }
+    }
+    parents.push(t1);
+    time.push(B + 200_000);
+    let a = parents.len() - 1;
+    parents.push(t2);
+    time.push(B + 200_000 + (tip_order as i64 % 2));
+    let b = a + 1;
+    let q = |first: usize, others: &[usize]| Query { first, others: others.to_vec() };
+    let mut queries = vec![q(a, &[b]), q(b, &[a]), q(a, &[b, b]), q(b, &[a, candidates[0]])];
+    if criss {
+        queries.push(q(a, &[b, bases[0]]));
+    }
+    (Dag { parents, time }, queries)
+}
+
+fn skew_families(r: &mut Rng, thorough: bool) -> Vec<(Dag, Vec<Query>, String)> {
+    let mut out = Vec::new();
+    // a fixed grid (every run) ...
+    for depth in 1..=2 {
+        for pos in 1..=2 {
+            for (criss, stacked) in [(false, false), (true, false), (false, true)] {
+                let (d, q) = skew_family(depth, pos, (depth + pos) % 2, 1 + (pos % 2), criss, stacked, depth + pos);
+                out.push((d, q, format!("family/skew-nonfirst d{depth} p{pos}{}{}", if criss { " criss" } else { "" }, if stacked { " stacked" } else { "" })));
+            }
+        }
+    }
+    // ... and random members
+    for _ in 0..if thorough { 60 } else { 8 } {
+        let depth = 1 + r.usize(4);
+        let pos = 1 + r.usize(3);
+        let (d, q) = skew_family(depth, pos, r.usize(3), r.usize(3), r.chance(1, 3), r.chance(1, 3), r.usize(4));
+        out.push((d, q, "family/skew-nonfirst random".to_string()));
+    }
+    out
+}
+
 fn replay(rep: &mut Report, ctx: &mut Ctx, scratch: &Scratch, ops: &[String]) {
     for op in ops {
         let a: Vec<&str> = op.split(' ').collect();
@@ -462,6 +567,13 @@ fn main() {
         // the two smallest corpus histories are made with `git commit-tree`, one process per commit
         let commit_tree = name == "corpus/criss-cross" || name == "corpus/skewed-second-parent";
         jobs.push(Job { dag, bucket: name.into(), queries, partial, commit_tree, git_answers: vec![None; nq] });
+    }
+    // no commit-graph for these (the phase "none" and "full" still run; "none" is where the
+    // non-first parents must be walked); every query is judged by the brute-force semantics (and
+    // by git while the budget lasts)
+    for (dag, queries, name) in skew_families(&mut r, args.thorough) {
+        let nq = queries.len();
+        jobs.push(Job { dag, bucket: name, queries, partial: None, commit_tree: false, git_answers: vec![None; nq] });
     }
     let dags = args.budget(60, 700);
     for k in 0..dags {
